@@ -179,7 +179,8 @@ def families(tier):
         heavy = [p for p in parts if any(("x2 == %d" % a) in p for a in (0, 1, 2)) and any(("x3 == %d" % b) in p for b in (0, 1, 2))]
         parts = [p for p in parts if p not in heavy] + [p + ["x4 == %d" % v] for p in heavy for v in (0, 3, 4, NOP)]
     else:
-        pre = base + ["x5 == %d" % NOP, "a5 == 0", "t >= 0", "cb == 3"]
+        # sized to finish inside the wall budget
+        pre = base + ["x5 == %d" % NOP, "a5 == 0", "t == 0 or t >= 4", "cb == 3", "size <= 3", "a2 <= 2", "a3 <= 2", "a4 <= 1", "n1 == 2 or x4 == %d" % NOP]
         parts = parts_product(n1=(2, 3), x2=range(NOP), x3=range(NOP))
     PC = ["x2", "a2", "x3", "a3", "x4", "a4"]
     if not thorough:
